@@ -830,7 +830,76 @@ func scenarioStalePolka(crashAt, crashNode int) (*scenario, *explorer) {
 	return sc, x
 }
 
+// scenarioLateImport (base schedule B6): V3 Byzantine. Round 0: V1 proposes B1; V0 starts
+// importing it and the import does not complete. V1 and V2 see a polka (with V3), lock B1
+// and precommit it, nobody commits, they time out into round 1, where V2 (locked)
+// re-proposes B1. The round-1 prevotes (B1, B1, nil) move V0 into round 1 - this cancels
+// its import - and V0 prevotes nil. Then the re-proposal reaches V0, and finally the
+// callback of the cancelled import fires (the block manager had already dispatched it).
+// A validator must not cast a second prevote for round 1 because of that stale callback.
+func scenarioLateImport(crashAt, crashNode int) (*scenario, *explorer) {
+	env := newCSEnv(4)
+	correct := []int{0, 1, 2}
+	x := newExplorer(env, correct, 3)
+	for _, p := range correct {
+		x.mt.nameBlock(x.honestBlock(p).ID(), fmt.Sprintf("B%d", p))
+		x.mt.namePS(x.honestBlock(p).partSet().ID().Hash, fmt.Sprintf("B%d", p))
+	}
+	x.byzMenu(3, 3)
+	sc := newScenario(x, 3, crashAt, crashNode)
+	sc.hold = map[int]bool{0: true}
+	pv := func(to, signer int, r int32, blk string) { sc.send(to, msgPred{"prevote", signer, r, blk}) }
+	pc := func(to, signer int, r int32, blk string) { sc.send(to, msgPred{"precommit", signer, r, blk}) }
+	sc.pump(1)
+	for _, to := range []int{0, 2} {
+		sc.send(to, msgPred{"proposal", 1, 0, "B1"})
+		sc.send(to, msgPred{"part", -2, 0, "B1"})
+	}
+	sc.send(1, msgPred{"part", -2, 0, "B1"})
+	// V1, V2 see the polka B1@0 (with V3) and lock
+	pv(1, 2, 0, "B1")
+	pv(1, 3, 0, "B1")
+	pv(2, 1, 0, "B1")
+	pv(2, 3, 0, "B1")
+	// precommits: B1, B1, nil(V3): no decision -> timeout -> round 1
+	pc(1, 2, 0, "B1")
+	pc(1, 3, 0, "nil")
+	pc(2, 1, 0, "B1")
+	pc(2, 3, 0, "nil")
+	sc.timeout(1)
+	sc.timeout(2)
+	// round 1: V2 (locked on B1) re-proposes B1 with POL round 0
+	sc.send(1, msgPred{"proposal", 2, 1, "B1"})
+	sc.timeout(2) // the proposer itself prevotes (its locked block) at the propose timeout
+	pv(1, 2, 1, "B1")
+	pv(2, 1, 1, "B1")
+	// V0 is moved into round 1 by +2/3 prevotes of round 1 (B1, B1, nil): its import is cancelled, it prevotes nil
+	pv(0, 1, 1, "B1")
+	pv(0, 2, 1, "B1")
+	pv(0, 3, 1, "nil")
+	// the re-proposal (with its proof-of-lock prevotes) reaches V0
+	for _, s := range []int{1, 2, 3} {
+		pv(0, s, 0, "B1")
+	}
+	sc.send(0, msgPred{"part", -2, 0, "B1"})
+	sc.send(0, msgPred{"proposal", 2, 1, "B1"})
+	// the stale callback of the cancelled round-0 import fires now
+	sc.late(0, 0)
+	sc.late(0, 1)
+	return sc, x
+}
+
 func TestVerifC01Scenario(t *testing.T) {
+	{
+		sc, _ := scenarioLateImport(0, 0)
+		fins, distinct := sc.result()
+		fmt.Printf("=== late import scenario: finalized=%v distinct=%d steps=%d equiv=%q\n", fins, distinct, sc.stepNo, sc.nodes[0].equivocated)
+		if os.Getenv("VERIF_DEBUG") != "" {
+			for _, l := range sc.log {
+				fmt.Println("  ", l)
+			}
+		}
+	}
 	{
 		sc, _ := scenarioStalePolka(0, 0)
 		fins, distinct := sc.result()
@@ -869,7 +938,12 @@ func runBaseWorker(cfg c01Config) *c01Result {
 	base, _ := scenarioRelockAmnesia(false, 0, 0)
 	vs := []variant{{"B4-relock-nocrash", false, 0, 0}, {"B4-relock-crashV0-after-relock", true, 0, 0}, {"B5-stalepolka-nocrash", false, 0, 0}}
 	base5, _ := scenarioStalePolka(0, 0)
+	base6, _ := scenarioLateImport(0, 0)
+	vs = append(vs, variant{"B6-lateimport-nocrash", false, 0, 0})
 	for node := 0; node < 3; node++ {
+		for at := 1; at <= base6.stepNo; at++ {
+			vs = append(vs, variant{fmt.Sprintf("B6-lateimport-crashV%d-before-step%d", node, at), false, at, node})
+		}
 		for at := 1; at <= base.stepNo; at++ {
 			vs = append(vs, variant{fmt.Sprintf("B4-relock-crashV%d-before-step%d", node, at), false, at, node})
 		}
@@ -886,6 +960,8 @@ func runBaseWorker(cfg c01Config) *c01Result {
 		var sc *scenario
 		if strings.HasPrefix(v.name, "B5") {
 			sc, _ = scenarioStalePolka(v.crashAt, v.crashNode)
+		} else if strings.HasPrefix(v.name, "B6") {
+			sc, _ = scenarioLateImport(v.crashAt, v.crashNode)
 		} else {
 			sc, _ = scenarioRelockAmnesia(v.withCrash, v.crashAt, v.crashNode)
 		}
